@@ -50,6 +50,7 @@ struct C05 : public Driver {
         p["doc"] = d.xml; p["xsl"] = s.xsl; p["encoding"] = sc.encoding; p["dtd"] = dc.dtd;
         Json res = Json::object(); for (auto& kv : s.resources) res[kv.first] = kv.second; p["resources"] = res;
         Json feats = Json::array(); for (auto& f : s.features) feats.push(f); p["features"] = feats;
+        { Json ex = Json::array(); for (auto& e : s.expect) { Json pr = Json::array(); pr.push(e.first); pr.push(e.second); ex.push(pr); } p["expect"] = ex; }
         Json params = Json::array(); if (useParams) { Json a = Json::object(); a["name"] = "P1"; a["kind"] = "string"; a["value"] = "pv" + std::to_string(g.below(100)); params.push(a); Json b = Json::object(); b["name"] = "P2"; b["kind"] = "number"; b["value"] = std::to_string(g.range(1, 90)); params.push(b); }
         p["params"] = params;
         static const std::vector<std::string> sysIds = { "path", "path", "url" };
@@ -168,6 +169,12 @@ struct C05 : public Driver {
         // targets cannot hold such a tree, so only the byte forms are compared then.
         const bool refIsDocument = ref.status == 0 && !ref.threw && (refCanon = canonOf(ref)).compare(0, 16, "NOT-WELL-FORMED:") != 0;
         if (ref.status == 0 && !ref.threw && !refIsDocument) res.count("probe:result-is-not-a-document");
+        // observations whose content the generator knows beforehand (every form shares the engine, so agreement between forms says nothing about them)
+        if (refIsDocument && plan.has("expect")) for (auto& e : plan.at("expect").a) {
+            if (e.a.size() != 2) continue; const std::string mk = "^f=" + e.a[0].s + ";"; size_t q = refCanon.find(mk); if (q == std::string::npos) continue;
+            size_t end = refCanon.find("E{|o|^f=", q); const std::string rec = refCanon.substr(q, end == std::string::npos ? std::string::npos : end - q); res.count("expected_outputs_checked");
+            if (rec.find(e.a[1].s) == std::string::npos) res.violate("expected-output", e.a[0].s, "the observation of feature " + e.a[0].s + " is [" + rec.substr(0, 300) + "], it must contain [" + e.a[1].s + "]");
+        }
         for (size_t i = 1; i < outs.size(); ++i) {
             const FormOut& o = outs[i]; const Json& f = forms.a[i]; std::string dim = dimDiff(rf, f);
             if (ref.status == 0 && !ref.threw && !refIsDocument && (o.isTree || f.str("src") != rf.str("src") || f.str("ss") != rf.str("ss"))) continue;
